@@ -64,6 +64,9 @@ func injectTag(contents []byte, area textArea) (injected []byte) {
 	oldTag := newTagItems(area.CurrentTag)   // 原来的 tag
 	injectTag := newTagItems(area.InjectTag) // 待注入的 tag
 	finalTag := oldTag.override(injectTag)
+	if strings.Contains(finalTag.format(), "`") { // 反引号无法写进 `` 包裹的 tag 里, 注入后文件就无法解析了, 这里直接跳过
+		return contents
+	}
 	expr = rInject.ReplaceAllLiteral(expr, []byte(fmt.Sprintf("`%s`", finalTag.format())))
 	injected = append(injected, contents[:area.Start-1]...)
 	injected = append(injected, expr...)
